@@ -708,6 +708,11 @@ func init() {
 	// !!binary scalars whose payload is NOT valid UTF-8 (0xFF, 0xC3 0x28), as values and keys inside order-preserving maps
 	c13Seeds = append(c13Seeds, "env: {A: !!binary /w==, B: !!binary wyg=}\nsteps:\n  - command: x\n    agents: {queue: !!binary /w==}\n  - trigger: t\n    build: {message: !!binary wyg=, env: {K: !!binary /w==}}\n",
 		"steps:\n  - mystery: !!binary /w==\n    nested: {deep: [!!binary /w==, {k: !!binary wyg=}]}\n  - !!binary /w==\n", "steps:\n  - command: x\n    label: !!binary /w==\n    plugins:\n      - p#v1: {v: !!binary /w==}\n")
+	// plugin sources that are legal text but unusual as URLs: nothing but a ref, nothing but a query, only separators, a bare
+	// host, an empty string - the canonical source is computed when the pipeline is written out
+	c13Seeds = append(c13Seeds, "steps:\n  - command: make\n    plugins:\n      - \"#v1.2.3\"\n      - \"#\": {a: 1}\n      - \"?x\"\n      - \"?\": ~\n",
+		"steps:\n  - command: make\n    plugins:\n      - \"/\"\n      - \"//\": {a: 1}\n      - \"///#r\"\n      - \"//host\"\n      - \"\"\n      - \" \"\n      - \"a//b\"\n      - \"/#\"\n",
+		"steps:\n  - plugins: {\"#v1\": ~, \"?q#f\": {k: v}, \"%zz\": ~, \"a b#c d\": ~, \":\": ~, \"::\": ~, \"x:\": ~, \":x\": ~}\n")
 	// layered merges: each layer merges the two fragments of the layer below - 2^depth merge paths, a handful of keys
 	for _, depth := range []int{6, 24, 40} {
 		var sb strings.Builder
